@@ -527,7 +527,7 @@ class KindTranslator:
                 vb = env["vars"]
                 # python-level bindings (functions, mappers, modules) that differ between the branches are forgotten
                 merged = {}
-                for k in set(va) | set(vb):
+                for k in sorted(set(va) | set(vb)):
                     x, y = va.get(k), vb.get(k)
                     if x == y or (isinstance(x, tuple) and isinstance(y, tuple) and x[0] == "var" and y[0] == "var" and x == y):
                         merged[k] = x
